@@ -234,3 +234,94 @@ func SameObject(a, b interface{}) bool { return a == b }
 // symbolic executor since the last reset (natively: not measured).
 func AllocReset()   {}
 func AllocMax() int { return 0 }
+
+var (
+	two256  = new(big.Int).Lsh(big.NewInt(1), 256)
+	mask256 = new(big.Int).Sub(two256, big.NewInt(1))
+	two255  = new(big.Int).Lsh(big.NewInt(1), 255)
+)
+
+func s256(x *big.Int) *big.Int {
+	if x.Cmp(two255) < 0 {
+		return new(big.Int).Set(x)
+	}
+	return new(big.Int).Sub(x, two256)
+}
+
+func b2i(b bool) *big.Int {
+	if b {
+		return big.NewInt(1)
+	}
+	return big.NewInt(0)
+}
+
+// BV256 evaluates an EVM word operation in the theory of 256-bit bit-vectors.
+// Under gosym it is an SMT-LIB term; natively it is computed with math/big.
+func BV256(op string, xx, yy *big.Int) *big.Int {
+	x := new(big.Int).And(xx, mask256)
+	y := x
+	if yy != nil {
+		y = new(big.Int).And(yy, mask256)
+	}
+	r := new(big.Int)
+	switch op {
+	case "add":
+		r.Add(x, y)
+	case "sub":
+		r.Sub(x, y)
+	case "mul":
+		r.Mul(x, y)
+	case "and":
+		r.And(x, y)
+	case "or":
+		r.Or(x, y)
+	case "xor":
+		r.Xor(x, y)
+	case "not":
+		r.Xor(x, mask256)
+	case "shl":
+		if y.Cmp(big.NewInt(256)) < 0 {
+			r.Lsh(x, uint(y.Uint64()))
+		}
+	case "lshr":
+		if y.Cmp(big.NewInt(256)) < 0 {
+			r.Rsh(x, uint(y.Uint64()))
+		}
+	case "ashr":
+		sx := s256(x)
+		if y.Cmp(big.NewInt(256)) < 0 {
+			r.Rsh(sx, uint(y.Uint64()))
+		} else if sx.Sign() < 0 {
+			r.SetInt64(-1)
+		}
+	case "ult":
+		r = b2i(x.Cmp(y) < 0)
+	case "ugt":
+		r = b2i(x.Cmp(y) > 0)
+	case "slt":
+		r = b2i(s256(x).Cmp(s256(y)) < 0)
+	case "sgt":
+		r = b2i(s256(x).Cmp(s256(y)) > 0)
+	case "eq":
+		r = b2i(x.Cmp(y) == 0)
+	case "iszero":
+		r = b2i(x.Sign() == 0)
+	case "byte":
+		if x.Cmp(big.NewInt(32)) < 0 {
+			r.Rsh(y, 8*(31-uint(x.Uint64())))
+			r.And(r, big.NewInt(0xff))
+		}
+	case "signextend":
+		if x.Cmp(big.NewInt(31)) < 0 {
+			sh := 248 - 8*uint(x.Uint64())
+			t := new(big.Int).Lsh(y, sh)
+			t.And(t, mask256)
+			r.Rsh(s256(t), sh)
+		} else {
+			r.Set(y)
+		}
+	default:
+		panic("BV256: unknown op " + op)
+	}
+	return r.And(r, mask256)
+}
